@@ -3,7 +3,7 @@
 sweep  : configurations x fresh processes (hash seed, working directory / output location) x thread counts of the
          parallel kernels; the sha256 digest of meshes, every dataset, step/time/dt attributes and per-step records
          must coincide for one configuration across all of them (timestamps excluded by name).
-session: explicit-state exploration of *histories inside one process*: every sequence (depth-bounded) over an alphabet of 19
+session: explicit-state exploration of *histories inside one process*: every sequence (depth-bounded) over an alphabet of 20
          legitimate uses of the public API that leave the logical inputs unchanged (other solves on the same device / options /
          parameter objects, moved or re-meshed copies, post-processing, saving and loading, pickling, queries, a refused and an
          aborted solve, another thread count) is executed in a fresh process, then two reference simulations are run on the objects
@@ -54,7 +54,7 @@ def floors(tier):
     return {"distinct_nontrivial": 10, "states": 100, "count:schedules": 500, "count:digests": 60}
 
 
-CONFIGS = ["plain", "screening", "adaptive", "tdep", "callable_currents", "hole_terminals", "four_terminals", "seeded_twice"]
+CONFIGS = ["plain", "screening", "adaptive", "tdep", "callable_currents", "hole_terminals", "four_terminals", "seeded_twice", "eps_tdep"]
 KERNELS = ["A_induced", "sq2d", "sq3d", "eu2d", "eu3d", "bs1d", "bs2dz", "bs2dv"]
 
 
@@ -63,9 +63,11 @@ def cost(case):
 
 
 def session_histories(tier):
-    from ..c09_session import CORE, OPS
+    from ..c09_session import CORE, MID, OPS
 
-    hs = [[a] for a in OPS]
+    hs = [[a] for a in OPS] + [["mid:" + a] for a in MID]
+    if tier != "quick":
+        hs += [[a, "mid:" + b] for a in CORE for b in MID]
     if tier == "quick":
         hs += [[a, b] for a in CORE for b in CORE]
     else:
